@@ -11,9 +11,13 @@ Open Scope Z_scope.
     5 sort_intervals (key / sort_order route)         6 sort_intervals (StringEncoding, lexsort route)
     7 Geometry.sort (unstable argsort on the start: checked relationally)
     8 count_overlap         9 intersect              10 unique_intersect       11 jaccard     12 forbes   (15 Geometry.jaccard)
-   13 clip                 14 extend_to_size (fragment length k_d; tag 1 = '+', 0 = '-')              *)
+   13 clip                 14 extend_to_size (fragment length k_d; tag 1 = '+', 0 = '-')
+   Geometry routes on chromosome number k_rank of a genome with chromosome sizes k_sizes:
+   16 Geometry.get_pileup  17 Geometry.get_mask      18 Geometry.merge_intervals   7 Geometry.sort (tags = ranks)
+   15 Geometry.jaccard *)
 Record case := {
   k_op : Z; k_size : Z; k_d : Z;
+  k_sizes : list Z; k_rank : Z;            (* Geometry routes: chromosome sizes of the genome, rank of the contig *)
   k_a : list tiv; k_b : list tiv;          (* inputs; tag = chromosome rank (sort) / strand (extend) / 0 *)
   k_err : Z;                               (* 0 = returned, 1 = AssertionError, 2 = another exception *)
   k_dense : list Z;                        (* per-base output (pileup; mask as 0/1) *)
@@ -31,15 +35,24 @@ Definition bools_as_z (l : list bool) : list Z := map b2z l.
 (* the input lies in the property's domain *)
 Definition wf (size : Z) (I : list iv) : bool := forallb (inside size) I.
 Definition nonempty (I : list iv) : bool := forallb (fun i => fst i <? snd i) I.
+Definition genome_ok (c : case) : bool :=
+  forallb (fun z => 1 <=? z) (k_sizes c) && (0 <=? k_rank c) && (k_rank c <? len (k_sizes c))
+  && (gsize (k_sizes c) (k_rank c) =? k_size c) && forallb (fun i => fst i <? k_size c) (A c).
+Definition sort_row_ok (sizes : list Z) (t : tiv) : bool :=
+  (0 <=? t_tag t) && (t_tag t <? len sizes) && (0 <=? t_start t) && (t_start t <? gsize sizes (t_tag t))
+  && (t_start t <=? t_stop t) && (t_stop t <=? gsize sizes (t_tag t)).
 Definition domain (c : case) : bool :=
   let s := k_size c in
   (1 <=? s) &&
   match k_op c with
+  | 16 | 17 => wf s (A c) && genome_ok c
+  | 18 => wf s (A c) && nonempty (A c) && sortedb Z.leb (map fst (A c)) && (0 <=? k_d c) && genome_ok c
+  | 7 => forallb (fun z => 1 <=? z) (k_sizes c) && forallb (sort_row_ok (k_sizes c)) (k_a c)
   | 1 | 2 | 3 => wf s (A c)
   | 4 => wf s (A c) && nonempty (A c) && sortedb Z.leb (map fst (A c)) && (0 <=? k_d c)
-  | 5 | 6 | 7 => wf s (A c)
-  | 8 | 9 | 11 | 12 | 15 => wf s (A c) && wf s (B c)
-  | 10 => wf s (A c) && wf s (B c) && nonempty (A c)
+  | 5 | 6 => wf s (A c)
+  | 8 | 9 | 10 | 11 | 12 => wf s (A c) && wf s (B c)
+  | 15 => wf s (A c) && wf s (B c) && genome_ok c && forallb (fun i => fst i <? k_size c) (B c)
   | 13 => forallb (fun i => fst i <=? snd i) (A c)
   | 14 => wf s (A c) && (0 <=? k_d c) && forallb (fun t => (t_tag t =? 0) || (t_tag t =? 1)) (k_a c)
   | _ => false
@@ -56,14 +69,17 @@ Definition spec_ok (c : case) : bool :=
   let s := k_size c in
   domain c && (k_err c =? 0) &&
   match k_op c with
-  | 1 | 2 => zlist_eqb (k_dense c) (pileup_spec (A c) s)
-  | 3 => zlist_eqb (k_dense c) (bools_as_z (mask_spec (A c) s))
-  | 4 => ivs_eqb (out_ivs c) (merge_spec (k_d c) (A c) s) && ivs_eqb (out_ivs c) (merge_spec2 (k_d c) (A c) s)
+  | 1 | 2 | 16 => zlist_eqb (k_dense c) (pileup_spec (A c) s)
+  | 3 | 17 => zlist_eqb (k_dense c) (bools_as_z (mask_spec (A c) s))
+  | 4 | 18 => ivs_eqb (out_ivs c) (merge_spec (k_d c) (A c) s) && ivs_eqb (out_ivs c) (merge_spec2 (k_d c) (A c) s)
   | 5 | 6 | 7 => sort_spec_ok (k_a c) (k_ivs c)
   | 8 => (k_num c =? overlap_spec (A c) (B c) s) && (k_den c =? 1)
          && (negb (disjointb (A c) s && disjointb (B c) s) || (k_num c =? overlap_sets_spec (A c) (B c) s))
   | 9 => intersect_spec_ok (A c) (B c) (out_ivs c) s
-  | 10 => ivs_eqb (out_ivs c) (unique_intersect_spec (A c) (B c))
+  (* rows of A without bases (start = stop) are outside the property: only the rows with bases are compared, and a
+     returned row without bases must be one of the input rows *)
+  | 10 => ivs_eqb (filter (fun i => fst i <? snd i) (out_ivs c)) (unique_intersect_spec (A c) (B c))
+          && forallb (fun o => (fst o <? snd o) || existsb (iv_eqb o) (A c)) (out_ivs c)
   | 11 | 15 => frac_close c (jaccard_spec (A c) (B c) s)
   | 12 => frac_close c (forbes_spec (A c) (B c) s)
   | 13 => clip_spec_ok s (A c) (out_ivs c)
@@ -92,13 +108,16 @@ Definition model_ok (c : case) : bool :=
   | 4 => opt_ok c (merge_model (k_d c) (A c)) (ivs_eqb (out_ivs c))
   | 5 => (k_err c =? 0) && tivs_eqb (k_ivs c) (sort_full_model (k_a c))
   | 6 => (k_err c =? 0) && tivs_eqb (k_ivs c) (sort_lex_model (k_a c))
-  | 7 => (k_err c =? 0) && perm_b (k_a c) (k_ivs c) && sortedb geom_sort_leb (k_ivs c)
+  | 7 => (k_err c =? 0) && tivs_eqb (k_ivs c) (geom_sort_model (k_sizes c) (k_a c))
+  | 16 => (k_err c =? 0) && zlist_eqb (k_dense c) (geom_pileup_model (k_sizes c) (k_rank c) (A c))
+  | 17 => opt_ok c (geom_mask_model (k_sizes c) (k_rank c) (A c)) (fun m => zlist_eqb (k_dense c) (bools_as_z m))
+  | 18 => opt_ok c (geom_merge_model (k_sizes c) (k_rank c) (k_d c) (A c)) (ivs_eqb (out_ivs c))
   | 8 => (k_err c =? 0) && (k_num c =? count_overlap_model (A c) (B c)) && (k_den c =? 1)
   | 9 => (k_err c =? 0) && ivs_eqb (out_ivs c) (intersect_model (A c) (B c))
   | 10 => opt_ok c (unique_intersect_model (A c) (B c) s) (ivs_eqb (out_ivs c))
   | 11 => res_ok c (jaccard_stream_model (A c) (B c) s) (frac_close c)
   | 12 => res_ok c (forbes_stream_model (A c) (B c) s) (frac_close c)
-  | 15 => opt_ok c (jaccard_model (A c) (B c) s) (frac_close c)
+  | 15 => opt_ok c (geom_jaccard_model (k_sizes c) (k_rank c) (A c) (B c)) (frac_close c)
   | 13 => (k_err c =? 0) && ivs_eqb (out_ivs c) (clip_model s (A c))
   | 14 => (k_err c =? 0) && tivs_eqb (k_ivs c) (extend_model s (k_d c) (k_a c))
   | _ => false
